@@ -251,7 +251,47 @@ def overlap(src, n=2, rounds=3, closing=5, delays=1, endings=('stopping', 'stopp
                       for c in cl.live()})
 
 
+@rigged
+def multi_loss(src, n=4):
+    """H12-loss: one real instance of a stable cluster; a process runs on a solver-chosen set of instances and a
+    solver-chosen set of peers is lost within the same tick period (XML-RPC failure or silence): afterwards the local
+    view lists exactly the surviving holders"""
+    import itertools
+    from harness import fsm_common as FC
+    from supvisors.ttypes import SupvisorsInstanceStates as S
+    fence = src.pick_flag('auto_fence')
+    core = FC.operational(n, {'synchro_options': 'LIST,TIMEOUT', 'synchro_timeout': '15', 'auto_fence': str(fence)},
+                          master=src.pick_int('master', 0, 1))
+    ids = core.ids
+    for i in ids:
+        core.add_process(i, 'app', 'p', PS.STOPPED)
+    holders = src.pick('holders', [c for k in range(1, n + 1) for c in itertools.combinations(range(n), k)])
+    for h in holders:
+        core.process_event(ids[h], 'app', 'p', PS.STARTING)
+        core.process_event(ids[h], 'app', 'p', PS.RUNNING)
+    lost = src.pick('lost', [c for k in range(1, n) for c in itertools.combinations(range(1, n), k)])
+    how = {i: src.pick(f'how{i}', ['xmlrpc-failure', 'silence']) for i in lost}
+    for i in lost:
+        if how[i] == 'xmlrpc-failure':
+            core.fsm.on_instance_failure(core.context.instances[ids[i]])
+    for _ in range(5):
+        FC.cluster_round(core, silent=[ids[i] for i in lost])
+    proc = core.context.applications['app'].processes['p']
+    expected = sorted(ids[h] for h in holders if h not in lost)
+    sig = f'{len([h for h in holders if h in lost])}-holders-lost-of-{len(lost)}-lost'
+    for i in lost:
+        src.check('lost-instance-not-seen-running', core.context.instances[ids[i]].state in (S.STOPPED, S.ISOLATED),
+                  sig=sig, instance=ids[i], state=core.context.instances[ids[i]].state.name)
+    src.check('reported-location-is-true', sorted(proc.running_identifiers) == expected, sig=sig,
+              reported=sorted(proc.running_identifiers), truth=expected)
+    src.check('running-verdict-is-true', proc.running() == bool(expected), sig=sig, state=proc.state)
+    src.check('no-internal-error', not core.logger.tracebacks(), log=core.logger.tracebacks()[:1])
+    src.reach('done')
+
+
 HARNESSES = [
+    Harness('H12-loss', multi_loss, quick={'n': 4}, thorough={'n': 4}, reach=('done',), timeout=(100, 300),
+            doc='several holders of a process lost in the same tick period (failure notification or silence)'),
     Harness('H12-overlap', overlap, quick={'n': 2}, thorough={'n': 3, 'endings': ('stopping', 'stopped', 'lost'),
                                                                'delays': 2},
             reach=('quiescent', 'still-stopping'), timeout=(100, 1200),
